@@ -968,6 +968,23 @@ func rulePGPolicy(p *Prog, r *Reporter) {
 			kind, queries = f["Kind"], f["Queries"]
 		}
 		if kind == nil {
+			// the entry point may delegate to the grammar node's own conversion, which is checked below
+			delegated := false
+			if tb := p.Func("parser", "Policy", "ToBiscuit"); tb != nil && tb != fn {
+				for _, c := range callsIn(fn) {
+					if cv, isV := c.(*ssa.Call); isV && cv.Call.StaticCallee() == tb {
+						for _, ret := range returnsOf(fn) {
+							if !isErrorReturn(ret) && dependsOn(retVal(ret, 0), func(x ssa.Value) bool { return x == ssa.Value(cv) }) {
+								delegated = true
+							}
+						}
+					}
+				}
+			}
+			if delegated {
+				r.OK(p.Pos(fn.Pos()), name, "policy literal", "returns what Policy.ToBiscuit builds from the parsed tree")
+				continue
+			}
 			r.Bad(p.Pos(fn.Pos()), name, "policy literal", "no biscuit.Policy literal with a Kind")
 			continue
 		}
